@@ -39,4 +39,15 @@ def ftFiber (j : Json) : Except String Json := do
   return Json.mkObj [("chunk_keys", Json.arr ((C03.leaderKeys n cs).map fun (x : Nat) => (x : Json)).toArray),
     ("groups", Json.arr (cs.map fun c => match groupOf bs c with | some g => (g : Json) | none => Json.null).toArray)]
 
+/-- exact-arithmetic reading of `fiber.project(trans_fn = w ↦ (w - r) / a, interval = [lo, hi)).prune(integral)` -/
+def ftProject (j : Json) : Except String Json := do
+  let ws ← listOf HF.intOf (← fld j "coords")
+  let a ← HF.intOf (← fld j "a")
+  let r ← HF.intOf (← fld j "r")
+  let lo ← HF.intOf (← fld j "lo")
+  let hi ← HF.intOf (← fld j "hi")
+  let qs := ws.filterMap fun w => if (w - r) % a == 0 && lo ≤ (w - r) / a && (w - r) / a < hi then some ((w - r) / a) else none
+  let qs := if a < 0 then qs.reverse else qs
+  return Json.mkObj [("coords", Json.arr (qs.map fun (q : Int) => (q : Json)).toArray)]
+
 end Driver
